@@ -48,6 +48,8 @@ def run(ctx):
         c02.decode_rules(dep(ctx, "C10", "C02"), tab)
     from . import c06
     c06.reader_deps(ctx, "C10")
+    from . import c15
+    c15.cli_arm_dep(ctx, "C10", ('Min',))
 
 
 def s2m_rules(ctx, fv):
